@@ -922,6 +922,11 @@ class Evaluator:
                 return rest + [("effect", e, ()) for e in newv[2]]
             if oldv[0] == "mut" and oldv[1] == newv[1] and newv[2][: len(oldv[2])] == oldv[2]:
                 return [("effect", e, ()) for e in newv[2][len(oldv[2]):]]
+        if newv[0] == "diff" and len(newv) == 3:
+            # acc = (acc ∪ ...) ∖ S inside a loop: the removal is one more per-iteration effect (order matters, so it stays an effect)
+            rest = self._decompose(oldv, newv[1], depth + 1)
+            if rest is not None:
+                return rest + [("effect", ("call", "difference_update", (newv[2],), ()), ())]
         d = self._delta(oldv, newv)
         if d is None:
             # one level of set/list update on top of a decomposable value
